@@ -107,9 +107,13 @@ FirstDecl(nodes, nm) == CHOOSE i \in 1..Len(nodes) : IsDeclAt(nodes, i, nm) /\ ~
 DeclaredNames(nodes) == {nodes[i].name : i \in {j \in 1..Len(nodes) : nodes[j].kind = "DeclName"}}
 \* a use before (or without) a declaration refers to nothing: it is unbound and does not count as a use
 UsedAfterDecl(nodes, nm) == \E i \in 1..Len(nodes) : nodes[i].kind = "Variable" /\ nodes[i].name = nm /\ DeclaredBefore(nodes, i, nm)
+UsedAnywhere(nodes, nm) == \E i \in 1..Len(nodes) : nodes[i].kind = "Variable" /\ nodes[i].name = nm
 \* set of <<kind, node index>>; one diagnostic per token
 NameDiagSet(nodes) ==
      {<<"DuplicateVariable", i>> : i \in {j \in 1..Len(nodes) : nodes[j].kind = "DeclName" /\ DeclaredBefore(nodes, j, nodes[j].name)}}
   \cup {<<"UnboundVariable", i>> : i \in {j \in 1..Len(nodes) : nodes[j].kind = "Variable" /\ ~DeclaredBefore(nodes, j, nodes[j].name)}}
-  \cup {<<"UnusedVar", FirstDecl(nodes, nm)>> : nm \in {x \in DeclaredNames(nodes) : ~UsedAfterDecl(nodes, x)}}
+  \cup {<<"UnusedVar", FirstDecl(nodes, nm)>> : nm \in {x \in DeclaredNames(nodes) : ~UsedAnywhere(nodes, x)}}
+\* a variable whose only uses precede its declaration: whether that counts as "never used" is left open
+\* (the pinned checker reports it; the check neither requires nor forbids it)
+MaybeUnusedSet(nodes) == {<<"UnusedVar", FirstDecl(nodes, nm)>> : nm \in {x \in DeclaredNames(nodes) : UsedAnywhere(nodes, x) /\ ~UsedAfterDecl(nodes, x)}}
 =============================================================================
